@@ -151,6 +151,18 @@ class VCGen:
                 self.assumes.append(a); self.math_axioms.add(a.get_id())
         return t
 
+    def rmul(self, a, b):
+        """real product; with the kernel option uf_mul, a product of two non-constant terms is an uninterpreted
+        function application (only congruence is known about it: sound, weaker, much cheaper than nonlinear arithmetic)"""
+        if not getattr(self, 'uf_mul', False):
+            return a * b
+        sa = z3.simplify(a); sb = z3.simplify(b)
+        if z3.is_rational_value(sa) or z3.is_rational_value(sb) or z3.is_int_value(sa) or z3.is_int_value(sb):
+            return a * b
+        if self._rmul is None:
+            self._rmul = z3.Function('rmul', R, R, R)
+        return self._rmul(a, b)
+
     # ------------------------------------------------------------------ obligations
     def oblige(self, st, kind, goal, node=None, note='', text=''):
         line = node.get('line') if isinstance(node, dict) else node
@@ -308,7 +320,7 @@ class VCGen:
             if op == '-':
                 return D(nan, a.val - b.val)
             if op == '*':
-                return D(nan, a.val * b.val)
+                return D(nan, self.rmul(a.val, b.val))
             if op == '/':
                 # IEEE division by zero does not trap: x/0 = +-inf, 0/0 = NaN.  There is no infinity in the model, so the
                 # result is then an ARBITRARY double (any real or NaN): everything downstream must hold for any value.
@@ -1338,6 +1350,7 @@ class VCGen:
         self.counter = {}; self.mallocs = 0; self.called = set(); self.trusted = set(); self.axioms_listed = []
         self.cutloops = 0; self.unrolled = 0; self.terminating = 0; self.nonterminating = []; self.return_states = []
         self.mathterms = []; self.mathfuns = {}; self.ghost_level = {}; self.math_axioms = set()
+        self.uf_mul = bool(c.options.get('uf_mul')); self._rmul = None
         self.rett = ctype(cast.ret_type(fn))
         body = cast.body_of(fn)
         # locals: types (for havoc ranges) and never-assigned `static double zero = 0.0`
